@@ -33,7 +33,10 @@ class Ctx:
         f = os.path.realpath(self.a5.__file__)
         if not f.startswith(self.root + os.sep):
             raise RuntimeError('a5 imported from %s, expected under %s' % (f, self.root))
-        self.hotset = engine.hot_lines(os.path.join(self.root, 'a5') + os.sep)      # (filename, line)
+        try:
+            self.hotset = engine.hot_lines(os.path.join(self.root, 'a5') + os.sep)  # (filename, line)
+        except Exception:
+            self.hotset = set()          # only a bias; never needed for soundness
         pre = len(os.path.join(self.root, 'a5') + os.sep)
         self.hot = {'%s:%d' % (f[pre:], l) for f, l in self.hotset}                   # 'rel/path.py:line'
         self._memo = {}
